@@ -32,9 +32,10 @@ func DecodeAddress(b []byte) (Type, error) {
 			return nil, errors.New("Invalid length for IPv6")
 		}
 	default:
-		return Address(b), nil
+		return Address(append([]byte(nil), b...)), nil
 	}
-	return Address(b[2:]), nil
+	// Copy: b usually points into a read buffer that is reused.
+	return Address(append([]byte(nil), b[2:]...)), nil
 }
 
 // Serialize implements the Type interface.
